@@ -114,7 +114,6 @@ func spellEth(rng *chain.Rng, a string) (string, string) {
 	return a, "checksummed"
 }
 
-
 func copyContents(m map[int64]env.Content) map[int64]env.Content {
 	o := map[int64]env.Content{}
 	for k, v := range m {
